@@ -102,9 +102,7 @@ func c20Cycles(t *testing.T, c *vcore.Ctx, replay *c20cCase) {
 	c.Bound("cycle_part_scenarios", len(cases))
 	c.Bound("cycle_part_preemption_bound_completed", bound)
 	for i := range cases {
-		if !c.Mine(int64(i)) {
-			continue
-		}
+		// every shard runs every scenario: exploreSchedules divides the subtrees below the root execution itself
 		cc := cases[i]
 		cc.Bound = bound
 		if c.Expired() {
